@@ -21,9 +21,10 @@ ASSUMPTIONS = ['a corruption from the listed classes leaves no valid program (by
                'the first offending token of a top-level stray brace is that brace, of an illegal character the character, of a missing colon the first value token (LALR(1) viable-prefix property)']
 TRUSTED = ['lexer model coq/Model/Lex.v (line counting), evaluator model coq/Model/Eval.v (undefined variables)', 'PLY LALR tables as built from the grammar: parser-level detection is decided on the real parser only']
 LEVEL = 'other'
-EXPLANATION = ('partial: theorems cover what the lexer and evaluator models decide (C15_illegal_character, C15_illegal_line, C15_lines_through_gap, C15_lines_through_string, '
-               'C15_undefined_variable); unbalanced braces, open strings and missing braces/colons are detected by the LALR parser, which is not modelled: decided by exhaustive single '
-               'corruptions of generated programs on the real compiler')
+EXPLANATION = ('partial: theorems cover what the lexer, reference-parser and evaluator models decide (C15_accepted_is_balanced, C15_declaration_needs_colon, C15_open_string_rejected, '
+               'C15_illegal_character, C15_illegal_line, C15_lines_through_gap, C15_lines_through_string, C15_undefined_variable); on the real side unbalanced braces, open strings and '
+               'missing braces/colons are detected by the LALR parser of PLY, which is not modelled: decided by exhaustive single corruptions of generated programs on the real compiler, '
+               'with the model pipeline required to give the same verdict')
 
 ILLEGAL = ['$', '?', '^', '`', '|', '\x7f', '\x01']
 MLSTR = ['"two\nlines"', "'three\r\nlines\n here'", '"a@{v}\nb"', '"x\n@{v}"', '"@{v}\n"', "'q@{v}\r\n@{v}\n'"]
@@ -172,6 +173,28 @@ def run(ctx):
                 out['spec_mismatch'].append({'input': {'text': c['text'], 'class': c['class']}, 'impl': a,
                                              'spec': 'error must name line %d (%s)' % (c['line'], c['what']), 'classes': ['c15-line:' + c['class']]})
         dist['corruptions_by_class'] = per
+        # ---- the model pipeline (Lex + reference parser) on the corrupted texts: it must reject what the real compiler rejects
+        if ctx.get('model_usable', True):
+            sel = list(range(len(cases)))
+            rng.shuffle(sel)
+            sel = sel[: (240 if quick else 6000) * mult]
+            prow = []
+            for i in sel:
+                term = 'text_case (false, false, false, 1%%nat) %s %s' % (coqrun.coq_str(cases[i]['text']),
+                                                                         '(Err %s)' % coqrun.coq_str('SyntaxError' if ans[i].get('cls') == 'SyntaxError' else 'CompilationError') if ans[i].get('r') == 'error' else coqrun.coq_res(ans[i]))
+                prow.append(('bool', '(fst (%s))' % term, '(snd (%s))' % term))
+            bad, diag, errs = coqrun.evaluate(prow, ['Model.Ast', 'Model.Fmt', 'Model.Eval', 'Model.Pipeline'], os.path.join(ctx['scratch'], 'pipe%d' % mult), shard=40, tag='pipe')
+            out['harness_errors'] += errs
+            pabst = 0
+            for k in bad:
+                if diag.get(k, '').startswith('ABSTAIN'):
+                    pabst += 1
+                    continue
+                c = cases[sel[k]]
+                out['model_mismatch'].append({'input': {'text': c['text'], 'class': c['class'], 'via': 'text pipeline (Lex + Parse)'}, 'impl': ans[sel[k]], 'model': diag.get(k, '')[:2000], 'classes': []})
+            out['evaluations'] += len(prow)
+            dist['pipeline_cases'] = len(prow)
+            dist['pipeline_cases_model_abstains'] = pabst
         # ---- undefined variable: AST-level mutation, compared with model and reference semantics too
         uv = []
         nuv = (30 if quick else 600) * mult
